@@ -325,7 +325,97 @@ def confirm(ctx, m, info, cfg, sig, text, mdl, fills=()):
         if r is None: continue
         bad, detail, rep = r
         if bad: return viol(m['name'], '%s [line %s]: %s; concrete run%s: %s' % (sig, m['line'], text, (' with operands filled from the solver witness (%s)' % f['how']) if f else '', detail), replay=rep)
+    if fills or 'operand assumption' in text:
+        f = symbolic_search(ctx, m, info, cfg, budget=240 if ctx.thorough else 120)
+        if f is not None:
+            r = native_run(ctx, m, info, cfg, None, rng, fill=f)
+            if r is not None and r[0]: return viol(m['name'], '%s [line %s]: %s; concrete run with operands from a %s: %s' % (sig, m['line'], text, f['how'], r[1]), replay=r[2])
     return inconc('%s: %s, but no concrete run reproduces a difference (%d candidates)' % (sig, text, len(cand)))
+
+def symbolic_search(ctx, m, info, cfg, budget=120):
+    """bit-precise search for a failing operand group: the overload is executed on the real kernels (no contracts) with default strides,
+       lane 0 symbolic in a few coefficient positions and zero elsewhere (so most products fold away); tries several position patterns."""
+    import itertools, time
+    n = info['n']; ra = info['a']; rb = info['b']
+    if rb is None or any(r.kind == 'arr' and r.stride is not None and r.stride[1] == 'list' for r in (ra, rb, info['out'])): pass
+    pos = [('a', i) for i in range(ra.dim)] + [('b', i) for i in range(rb.dim if rb else 0)]
+    # phase 1 (linear): one operand fully symbolic in lane 0, the other fixed to concrete words from a small set that contains 0, 1, -1 and an
+    # antipodal pair K, -K (so sums and products hit 0, p and non-canonical bands); every product is symbolic x constant
+    K = 2**32 + 1; V = [0, 1, P - 1, K, P - K, 7]
+    pats = []
+    for (gs, rs, gc, rc) in (('a', ra, 'b', rb), ('b', rb, 'a', ra)):
+        for conc in itertools.product(V, repeat=rc.dim):
+            if not any(conc): continue
+            pats.append((tuple((gs, i) for i in range(rs.dim)), {(gc, i): conc[i] for i in range(rc.dim)}))
+    # phase 2 (nonlinear): a few positions symbolic on both sides
+    pats += [(c, {}) for c in itertools.combinations(pos, 2)]
+    t0 = time.time(); NV = [dict(limb_min=0, abstract=False, logic='QF_NIA', share=0.6), dict(limb_min=0, abstract=False, logic=None, share=0.4)]
+    for pat, concv in pats:
+        if time.time() - t0 > budget: break
+        syms = {(g, i): core.limb64('%s%d' % (g, i)) for (g, i) in pat}
+        syms.update({k_: z3.BitVecVal(v_, 64) for k_, v_ in concv.items()})
+        w = core.world(ctx.bdir, ['cen_' + cfg, 'gbf_' + cfg]); w.reset(); w.hooks = dict(w.base_hooks); it = Interp(w)
+        args = {}; arrs = {}
+        def v(g, k, i):
+            x = syms.get((g, i), 0) if k == 0 else 0
+            return x.as_long() if (z3.is_expr(x) and z3.is_bv_value(x)) else x
+        def operand(g, r, is_out=False):
+            if r.stride is not None:
+                nm, kind, bits = r.stride
+                if kind == 'scalar': args[nm] = 3 if r.dim == 3 else 1
+                else: args[nm] = Ptr(core.obj_words(nm, [(3 if r.dim == 3 else 1) * k for k in range(n)], 8), 0)
+            if r.kind == 'arr':
+                o = Obj(8 * 3 * n + 64, g, 64); arrs[g] = o
+                if not is_out:
+                    for k in range(n):
+                        for i in range(r.dim): o.cells[(0 if r.const else k * (3 if r.dim == 3 else 1)) + i] = v(g, 0 if r.const else k, i)
+                    for c in range(o.size // 8): o.cells.setdefault(c, 0)
+                args[r.names[0]] = Ptr(o, 0); return
+            if r.kind == 'bcast': args[r.names[0]] = v(g, 0, 0); return
+            if r.kind == 'reg':
+                o = core.obj_words(g, [v(g, k, 0) for k in range(n)], 8 * n) if not is_out else Obj(8 * n, g, 8 * n); arrs[g] = o; args[r.names[0]] = Ptr(o, 0); return
+            if r.kind == 'planar':
+                o = core.obj_words(g, [v(g, k, i) for i in range(3) for k in range(n)], 8 * n) if not is_out else Obj(24 * n, g, 8 * n); arrs[g] = o; args[r.names[0]] = Ptr(o, 0); return
+            arrs[g] = []
+            for i in range(3):
+                if r.byval and not is_out: args[r.names[i]] = [v(g, k, i) for k in range(n)]
+                else:
+                    o = core.obj_words('%s%d' % (g, i), [v(g, k, i) for k in range(n)], 8 * n) if not is_out else Obj(8 * n, '%s%d' % (g, i), 8 * n); arrs[g].append(o); args[r.names[i]] = Ptr(o, 0)
+        try:
+            operand('a', ra); operand('b', rb); operand('out', info['out'], True)
+            if info['aux'] is not None: return None
+            it.call('@' + m['mangled'], [args[nm] for nm, ty in info['params']])
+        except (Unsupported, Violation): return None
+        out = info['out']
+        def cellv(i):
+            if out.kind == 'arr': return arrs['out'].cells.get(i)
+            if out.kind == 'reg': return arrs['out'].cells.get(0)
+            if out.kind == 'planar': return arrs['out'].cells.get(i * n)
+            return arrs['out'][i].cells.get(0)
+        A0 = [syms.get(('a', i), z3.BitVecVal(0, 64)) for i in range(ra.dim)]; B0 = [syms.get(('b', i), z3.BitVecVal(0, 64)) for i in range(rb.dim)]
+        def goal(tr):
+            from .props.C09 import f3mul
+            a = [tr.val(x) for x in A0]; b = [tr.val(x) for x in B0]
+            pr = Run.__new__(Run); pr.info = info; pr.n = 1
+            # products through the translator's factory on the limb structure
+            class Vv:
+                def __init__(s, t, e): s.t = t; s.e = e
+            sp = pr.spec([a], [b])[0] if info['op'] != 'mul' else None
+            if sp is None:
+                mul = lambda X, Y: tr.prod(X, Y)[0]
+                if ra.dim == 3 and rb.dim == 3:
+                    c0 = mul(A0[0], B0[0]); c1 = mul(A0[0], B0[1]) + mul(A0[1], B0[0]); c2 = mul(A0[0], B0[2]) + mul(A0[1], B0[1]) + mul(A0[2], B0[0]); c3 = mul(A0[1], B0[2]) + mul(A0[2], B0[1]); c4 = mul(A0[2], B0[2])
+                    sp = [c0 + c3, c1 + c3 + c4, c2 + c4]
+                elif ra.dim == 1 and rb.dim == 3: sp = [mul(A0[0], B0[i]) for i in range(3)]
+                elif ra.dim == 3 and rb.dim == 1: sp = [mul(A0[i], B0[0]) for i in range(3)]
+                else: sp = [mul(A0[0], B0[0])]
+            return z3.And([(tr.val(tobv(cellv(i), 64)) - sp[i]) % P == 0 for i in range(out.dim)])
+        if any(cellv(i) is None for i in range(out.dim)): return None
+        r = smt.prove(goal, assumptions=[lambda tr: z3.And([tr.val(x) < P for x in syms.values()])], timeout=8 if concv else 25, variants=NV if not concv else None)
+        if r.status == 'sat':
+            vals = {(g, i): core.limbval(r.model, '%s%d' % (g, i)) for (g, i) in pat}; vals.update(concv)
+            return dict(a=lambda k, i: vals.get(('a', i), 0) if k == 0 else 0, b=lambda k, i: vals.get(('b', i), 0) if k == 0 else 0, how='bit-precise sparse search (symbolic positions %s, fixed words %s)' % (list(pat), {('%s%d' % k_): hex(v_) for k_, v_ in concv.items()}))
+    return None
 
 class SparseCells(dict):
     """memory of an unsized array for the interpreter's concrete mode: unwritten cells hold a deterministic pseudo-random word"""
@@ -399,8 +489,10 @@ def sparse_run(ctx, m, info, cfg, cs, rng):
 SZ = 96
 def native_run(ctx, m, info, cfg, cs, rng, fill=None):
     lib = core.native(ctx.bdir, cfg)
-    def val(g):
-        if fill and g in fill: return fill[g] & (2**64 - 1)
+    def val(g, k=0, i=0):
+        if fill and g in fill:
+            f = fill[g]
+            return (f(k, i) if callable(f) else f) & (2**64 - 1)
         return rng.getrandbits(64) % P
     n = info['n']; U = ctypes.c_uint64
     def stride_for(r, key):
@@ -424,7 +516,7 @@ def native_run(ctx, m, info, cfg, cs, rng, fill=None):
     vals = {}
     def mkarr(g, fill=True):   # (the parameter shadows the outer fill on purpose: True = input array)
         b = core.abuf(SZ, 64)
-        for i in range(SZ): b[i] = val(g) if fill else 0x0D0D0D0D0D0D0D0D
+        for i in range(SZ): b[i] = val(g, i // 3, i % 3) if fill else 0x0D0D0D0D0D0D0D0D
         bufs[g] = b; return b
     def off(r, st, k, i):
         if r.const: return i
@@ -445,11 +537,11 @@ def native_run(ctx, m, info, cfg, cs, rng, fill=None):
         if r.kind == 'bcast':
             v = val(g); args[r.names[0]] = U(v); return [[v] for k in range(n)]
         if r.kind == 'reg':
-            vs = [val(g) for k in range(n)]; b = kern.u64buf(vs); bufs[g] = b; args[r.names[0]] = b; return [[v] for v in vs]
+            vs = [val(g, k, 0) for k in range(n)]; b = kern.u64buf(vs); bufs[g] = b; args[r.names[0]] = b; return [[v] for v in vs]
         if r.kind == 'planar':
-            vs = [[val(g) for i in range(3)] for k in range(n)]; b = kern.u64buf([vs[k][i] for i in range(3) for k in range(n)]); bufs[g] = b; args[r.names[0]] = b; return vs
+            vs = [[val(g, k, i) for i in range(3)] for k in range(n)]; b = kern.u64buf([vs[k][i] for i in range(3) for k in range(n)]); bufs[g] = b; args[r.names[0]] = b; return vs
         if r.kind == 'planar3':
-            vs = [[val(g) for i in range(3)] for k in range(n)]; bufs[g] = []
+            vs = [[val(g, k, i) for i in range(3)] for k in range(n)]; bufs[g] = []
             for i in range(3):
                 b = kern.u64buf([vs[k][i] for k in range(n)]); bufs[g].append(b)
                 if r.byval and not is_out:
